@@ -28,6 +28,7 @@ References: https://www.iucr.org/resources/cif
 """
 
 import io
+import os
 import re
 import sys
 from contextlib import contextmanager, redirect_stdout
@@ -372,7 +373,12 @@ class P_cif(StructureParser):
         """
         self.ciffile = None
         self.filename = filename
-        rv = self._parseCifDataSource(filename)
+        # PyCifRW takes "name:rest" for a URL; give it an absolute path
+        # when the name refers to a local file.
+        datasource = filename
+        if isinstance(filename, str) and os.path.exists(filename):
+            datasource = os.path.abspath(filename)
+        rv = self._parseCifDataSource(datasource)
         # all good here
         return rv
 
